@@ -4,11 +4,12 @@
 # a scratch copy of /verif in /tmp/vh whose sim/Cargo.toml path dependencies were rewritten from /repo to /tmp/mt.
 # (Set up: git -C /repo worktree add --detach /tmp/mt HEAD; git archive HEAD | tar -x -C /tmp/vh; sed -i "s#/repo/#/tmp/mt/#" /tmp/vh/sim/Cargo.toml.)
 set -u
+S="${SCR:-}"
 patch="$1"; prop="$2"; tier="${3:-quick}"
-cd /tmp/mt || exit 2
+cd /tmp/mt$S || exit 2
 git reset -q --hard HEAD
 if ! git apply "$patch" 2>/dev/null; then echo "PATCH-DOES-NOT-APPLY $patch"; exit 3; fi
-out=$(/tmp/vh/check "$prop" "$tier" 2>&1); code=$?
+out=$(/tmp/vh$S/check "$prop" "$tier" 2>&1); code=$?
 git reset -q --hard HEAD
 echo "$out" | grep -E "VIOLATION|violation check|KNOWN|harness|^property=" | head -8
 echo "exit=$code"
